@@ -16,6 +16,18 @@ from . cimport cpp
 
 logger = logging.getLogger(__name__)
 
+# Verification hook (only active when WHATSHAP_VERIF_TRACE is set at import time): in-memory
+# decision trace of the selection loops, fetched and cleared with _verif_take_log().
+import os as _verif_os
+_VERIF_TRACE = _verif_os.environ.get("WHATSHAP_VERIF_TRACE") is not None
+_verif_log = []
+
+
+def _verif_take_log():
+	result = list(_verif_log)
+	del _verif_log[:]
+	return result
+
 
 def _construct_indexes(readset, preferred_source_ids=None):
 	''' The parameter readset: is the given ReadSet and returns, all possible variant positions, the vcf_index_ mapping
@@ -139,6 +151,8 @@ cdef _slice_read_selection(PriorityQueue pq, coverages, max_cov, cpp.ReadSet* re
 		# only add read if it covers at least one new variant and adding it does not violate coverage constraints
 		begin = vcf_indices.get(extracted_read.getPosition(0))
 		end = vcf_indices.get(extracted_read.getPosition(extracted_read.getVariantCount() - 1)) + 1
+		if _VERIF_TRACE:
+			_verif_log.append(("slice", max_item, "violates" if coverages.max_coverage_in_range(begin, end) >= max_cov else ("selected" if covers_new_variant else "skipped")))
 		if coverages.max_coverage_in_range(begin, end) >= max_cov:
 			reads_violating_coverage.add(max_item)
 		elif covers_new_variant:
@@ -186,6 +200,8 @@ cdef readselection_helper(coverages, max_cov, cpp.ReadSet* readset, vcf_indices,
 	cdef cpp.Read* read
 	loop = 0
 	while len(undecided_reads) > 0:
+		if _VERIF_TRACE:
+			_verif_log.append(("outer", sorted(undecided_reads), bool(bridging)))
 		pq = _construct_priorityqueue(readset, undecided_reads, vcf_indices)
 		reads_in_slice, reads_violating_coverage = _slice_read_selection(pq, coverages, max_cov, readset, vcf_indices, variant_to_reads_map)
 		selected_reads.update(reads_in_slice)
@@ -212,6 +228,8 @@ cdef readselection_helper(coverages, max_cov, cpp.ReadSet* readset, vcf_indices,
 				# check whether read meets coverage constraints
 				begin = vcf_indices.get(read.getPosition(0))
 				end = vcf_indices.get(read.getPosition(read.getVariantCount() - 1)) + 1
+				if _VERIF_TRACE:
+					_verif_log.append(("bridge", read_index, "violates" if coverages.max_coverage_in_range(begin, end) >= max_cov else ("skipped" if len(covered_blocks) < 2 else "selected")))
 				if coverages.max_coverage_in_range(begin, end) >= max_cov:
 					undecided_reads.remove(read_index)
 					continue
